@@ -1318,8 +1318,10 @@ func (c *coll) selectLine(txn *column.Txn, rest []string) string {
 		})
 		return compact("vals", strings.Join(out, " "))
 	case len(action) == 1 && action[0] == "deleteall":
-		n := txn.Count()
+		// DeleteAll first: it may be the first selection call of the transaction; it leaves the selection as it is,
+		// so the count taken afterwards is the number of rows it was given
 		txn.DeleteAll()
+		n := txn.Count()
 		return fmt.Sprintf("deleted=%d", n)
 	case len(action) == 2 && action[0] == "ascend":
 		var out []string
